@@ -25,6 +25,11 @@ pub struct Case {
     /// key pairs produced by the library's own derive_keypair instead of the reference's
     pub lib_keys: bool,
     pub msgs: Vec<MsgApi>,
+    /// additionally pair the single-shot forms with contexts for the first message:
+    /// 1 = single_shot_seal -> setup_receiver + open; 2 = setup_sender + seal -> single_shot_open;
+    /// 3 / 4 = the same with the in-place detached single-shot forms
+    #[serde(default)]
+    pub single_shot: u8,
 }
 
 pub struct P;
@@ -115,6 +120,66 @@ fn check(case: &Case, obs: &mut Obs) -> Verdict {
             }
         }
     }
+    if case.single_shot != 0 && !case.msgs.is_empty() {
+        let m = &case.msgs[0];
+        obs.label(format!("single-shot-pairing:{}", case.single_shot));
+        let ms = sess.mode_s(&keys);
+        let mr = sess.mode_r(&keys);
+        let mut rng = ScriptRng::new(&sess.stream);
+        obs.inner_checks += 1;
+        let fail = |what: &str, got: String| Verdict::fail("C01/single-shot-pairing", format!("{}: {} ({} mode {}, info {} aad {})", what, got, suite.label(), sess.mode, hex_short(&sess.info), hex_short(&m.aad)));
+        match case.single_shot {
+            1 => {
+                // single-shot sender, context receiver
+                let (enc, ct) = match d.single_shot_seal(&ms, &keys.pk_r, &sess.info, &m.pt, &m.aad, &mut rng) {
+                    Ok(x) => x,
+                    Err(f) => return fail("single_shot_seal failed on honest inputs", format!("{:?}", f)),
+                };
+                ensure!(ct.len() == m.pt.len() + nt, "C01/seal/ciphertext-length", "single_shot_seal ciphertext has {} bytes for a {}-byte plaintext", ct.len(), m.pt.len());
+                let got = d.setup_receiver(&mr, &keys.sk_r, &enc, &sess.info).map_err(|f| format!("{:?}", f)).and_then(|mut r| r.open(&ct, &m.aad).map_err(|e| format!("{:?}", e)));
+                if got.as_ref() != Ok(&m.pt.0) {
+                    return fail("a message sealed by single_shot_seal is not opened to its plaintext by setup_receiver + open", format!("{:?}", got.map(|p| hex_short(&p))));
+                }
+            }
+            2 => {
+                let (enc, ct) = match d.setup_sender(&ms, &keys.pk_r, &sess.info, &mut rng).map_err(|f| format!("{:?}", f)).and_then(|(e, mut s)| s.seal(&m.pt, &m.aad).map(|c| (e, c)).map_err(|e| format!("{:?}", e))) {
+                    Ok(x) => x,
+                    Err(e) => return fail("setup_sender + seal failed on honest inputs", e),
+                };
+                let got = d.single_shot_open(&mr, &keys.sk_r, &enc, &sess.info, &ct, &m.aad);
+                if got.as_ref() != Ok(&m.pt.0) {
+                    return fail("a message sealed by setup_sender + seal is not opened to its plaintext by single_shot_open", format!("{:?}", got.map(|p| hex_short(&p))));
+                }
+            }
+            3 => {
+                let mut buf = m.pt.0.clone();
+                let (enc, tag) = match d.single_shot_seal_in_place(&ms, &keys.pk_r, &sess.info, &mut buf, &m.aad, &mut rng) {
+                    Ok(x) => x,
+                    Err(f) => return fail("single_shot_seal_in_place_detached failed on honest inputs", format!("{:?}", f)),
+                };
+                let got = d.setup_receiver(&mr, &keys.sk_r, &enc, &sess.info).map_err(|f| format!("{:?}", f)).and_then(|mut r| r.open_in_place(&mut buf, &m.aad, &tag).map_err(|e| format!("{:?}", e)));
+                if got != Ok(()) || buf != m.pt.0 {
+                    return fail("a message sealed by single_shot_seal_in_place_detached is not opened by setup_receiver + open_in_place_detached", format!("{:?}", got));
+                }
+            }
+            _ => {
+                let r0 = d.setup_sender(&ms, &keys.pk_r, &sess.info, &mut rng);
+                let (enc, mut s) = match r0 {
+                    Ok(x) => x,
+                    Err(f) => return fail("setup_sender failed on honest inputs", format!("{:?}", f)),
+                };
+                let mut buf = m.pt.0.clone();
+                let tag = match s.seal_in_place(&mut buf, &m.aad) {
+                    Ok(t) => t,
+                    Err(e) => return fail("seal_in_place_detached failed", format!("{:?}", e)),
+                };
+                let got = d.single_shot_open_in_place(&mr, &keys.sk_r, &enc, &sess.info, &mut buf, &m.aad, &tag);
+                if got != Ok(()) || buf != m.pt.0 {
+                    return fail("a message sealed by setup_sender + seal_in_place_detached is not opened by single_shot_open_in_place_detached", format!("{:?}", got));
+                }
+            }
+        }
+    }
     Verdict::Pass
 }
 
@@ -126,7 +191,7 @@ impl Property for P {
     fn rule(&self) -> String {
         "Generated: (one of 36 sealing suites, mode, ikmR, ikmS, psk, psk_id, info, RNG stream, 1..=12 messages with edge-biased pt/aad lengths incl. empty and block-straddling, per message alloc/in-place choice on each side; key pairs from the reference or from the library's own derive_keypair). \
          Swept: all 36x4 suite/mode cells with a 4-message script mixing both APIs, plus the empty PSK bundle in every Psk/AuthPsk cell (the library accepts it; 15% of the generated cases use it too). \
-         Oracle: the receiver built from (enc, skR, info, matching mode) opens message i, in order, to exactly pt_i; |ct| = |pt| + Nt; in-place keeps the length and returns an Nt-byte tag. \
+         In 40% of the cases the first message is additionally exchanged with one side using a single-shot form and the other a context (all four pairings). Oracle: the receiver built from (enc, skR, info, matching mode) opens message i, in order, to exactly pt_i; |ct| = |pt| + Nt; in-place keeps the length and returns an Nt-byte tag. \
          Non-trivial: (>=2 messages and one of length 0 or not a multiple of 16) or a non-Base mode."
             .into()
     }
@@ -139,13 +204,13 @@ impl Property for P {
             .prop_map(|(pt, aad, seal_in_place, open_in_place)| MsgApi { pt, aad, seal_in_place, open_in_place });
         // the library also accepts the empty bundle in Psk/AuthPsk mode: part of "all psk, psk_id
         // byte strings including empty ones"
-        (gen::session_sealing(), prop::bool::weighted(0.3), proptest::collection::vec(m, 1..=12), prop::bool::weighted(0.15))
-            .prop_map(|(mut sess, lib_keys, msgs, empty_bundle)| {
+        (gen::session_sealing(), prop::bool::weighted(0.3), proptest::collection::vec(m, 1..=12), prop::bool::weighted(0.15), prop_oneof![3 => Just(0u8), 2 => 1u8..=4])
+            .prop_map(|(mut sess, lib_keys, msgs, empty_bundle, single_shot)| {
                 if empty_bundle {
                     sess.psk = Bytes::default();
                     sess.psk_id = Bytes::default();
                 }
-                Case { sess, lib_keys, msgs }
+                Case { sess, lib_keys, msgs, single_shot }
             })
             .boxed()
     }
@@ -156,12 +221,12 @@ impl Property for P {
         let mut cells = Vec::new();
         for (s, m) in gen::all_cells(&Suite::sealing36()) {
             let mk = |n: usize, a: usize, si: bool, oi: bool| MsgApi { pt: Bytes(gen::fill(n, 5, n as u64)), aad: Bytes(gen::fill(a, 5, 77)), seal_in_place: si, open_in_place: oi };
-            cells.push(Case { sess: gen::cell_session(s, m, 1), lib_keys: m % 2 == 1, msgs: vec![mk(29, 7, false, false), mk(0, 16, true, false), mk(17, 0, false, true), mk(64, 3, true, true)] });
+            cells.push(Case { sess: gen::cell_session(s, m, 1), lib_keys: m % 2 == 1, msgs: vec![mk(29, 7, false, false), mk(0, 16, true, false), mk(17, 0, false, true), mk(64, 3, true, true)], single_shot: 1 + (m % 4) });
             if m & 1 != 0 {
                 let mut e = gen::cell_session(s, m, 3);
                 e.psk = Bytes::default();
                 e.psk_id = Bytes::default();
-                cells.push(Case { sess: e, lib_keys: false, msgs: vec![mk(0, 0, false, false), mk(5, 1, true, true), mk(16, 0, false, true)] });
+                cells.push(Case { sess: e, lib_keys: false, msgs: vec![mk(0, 0, false, false), mk(5, 1, true, true), mk(16, 0, false, true)], single_shot: 2 });
             }
         }
         vec![("suite_x_mode_cells".into(), cells)]
